@@ -1,9 +1,9 @@
 SPECIFICATION Spec
 CONSTANTS
-  ValueStacks = {"a", "b"}
+  ValueStacks = {"a"}
   Unbounded = 1000000
-  HasSteps = TRUE
-  HasInputs = TRUE
+  HasSteps = FALSE
+  HasInputs = FALSE
   MaxCalls = 6
   SizeChoices = {1, 3}
   ValueLists <- VL
